@@ -42,12 +42,6 @@ Proof.
 Qed.
 
 (* ---------- outside H the statement is false: one witness per excluded class ---------- *)
-Definition C02_statement_unrestricted : Prop :=
-  forall (cfg : config) (G : ogrammar) (U : utable) (r : name) (input : list byte) (f : nat),
-    let rg := exec cfg (gen_env G U) f (gen_start G U r) (init input None false) in
-    let rv := exec cfg (vm_env G (ulookup U)) f (vm_start G (ulookup U) r) (init input None false) in
-    rg <> ROutOfFuel -> rv <> ROutOfFuel -> obs rg = obs rv.
-
 Definition wcfg : config := {| memchr := true; fixed3 := true; fixedlim := false |}.
 Definition rl (n : string) (t : rtype) (e : oexpr) : orule := {| oname := nm n; oty := t; oexpr_of := e |}.
 Definition res_gen (G : ogrammar) (input : string) : res :=
@@ -90,11 +84,14 @@ Definition G_dirty : ogrammar :=
 Example C02_dirty_atomic_rep_refuted : why_not_H G_dirty false = 4 /\ differ G_dirty "xy5y".
 Proof. split; [reflexivity|differ_tac]. Qed.
 
+(* the statement without the restriction to H (here already for one configuration, the empty Unicode table,
+   start rule r0 and fuel 60) is false *)
+Definition C02_statement_unrestricted : Prop :=
+  forall (G : ogrammar) (input : string),
+    res_gen G input <> ROutOfFuel -> res_vm G input <> ROutOfFuel -> obs (res_gen G input) = obs (res_vm G input).
 Theorem C02_unrestricted_refuted : ~ C02_statement_unrestricted.
 Proof.
-  intros H. destruct C02_ws_nonatomic_refuted as (_ & Hg & Hv & Hd).
-  unfold res_gen, res_vm in Hg, Hv, Hd.
-  pose proof (H wcfg G_ws [] (nm "r0") (nm "x y") 60) as X. cbv zeta in X. exact (Hd (X Hg Hv)).
+  intros H. destruct C02_ws_nonatomic_refuted as (_ & Hg & Hv & Hd). apply Hd. apply H; assumption.
 Qed.
 
 (* ---------- non-vacuity: a grammar in H with WHITESPACE, COMMENT, the four modifiers, stack operations,
